@@ -148,20 +148,65 @@ def num_edit(rnd, spec, targets=None):
     return {"op": "set", "obj": n, "attr": p, "value": new}
 
 
-def can_remove_up(spec, up, remaining):
-    """a pattern may leave the system only if it shares no job and no network with the remaining ones
-    (the library has no notion of a dangling usage pattern)"""
+def well_formed(spec):
+    """the library has no notion of a usage pattern that is outside the system but still linked to it: such a pattern keeps feeding
+    the jobs, servers, storages and networks it shares with the system. The input space of the harness excludes it: every usage
+    pattern outside the system shares nothing but countries and devices with the objects of the system"""
     O = spec["objects"]
-    js = set(gen.jobs_of_up(spec, up))
-    for r in remaining:
-        if js & set(gen.jobs_of_up(spec, r)):
+    inside = set(O[spec["system"]]["params"]["usage_patterns"][1])
+    outside = [u for u, o in O.items() if o["cls"] == "UsagePattern" and u not in inside]
+    if not outside:
+        return True
+    from .spec import reachable, refs_of
+    reach = reachable(spec)
+    for u in outside:
+        seen, todo = set(), [u]
+        while todo:
+            n = todo.pop()
+            if n in seen:
+                continue
+            seen.add(n)
+            todo.extend(refs_of(O[n]))
+        if any(n in reach and O[n]["cls"] not in ("Country", "Device") for n in seen):
             return False
-        for key in ("network", "usage_journey"):
-            if O[r]["params"][key][1] == O[up]["params"][key][1]:
-                return False
     return True
 
 
+def admissible(edit, spec):
+    """the spec stays well formed under the edit"""
+    O = spec["objects"]
+    if edit is None:
+        return True
+    touches_system = any(c.get("obj") == spec["system"] for c in (edit.get("changes") or [edit]))
+    if not touches_system and all(u in O[spec["system"]]["params"]["usage_patterns"][1] for u, o in O.items() if o["cls"] == "UsagePattern"):
+        return True
+    s2 = copy.deepcopy(spec)
+    try:
+        apply_spec(edit, s2)
+    except Exception:
+        return True      # hostile list operations that the plain list refuses too: not a structural change
+    return well_formed(s2)
+
+
+def keeps_well_formed(fn):
+    def g(rnd, spec, *a, **k):
+        for _ in range(6):
+            e = fn(rnd, spec, *a, **k)
+            if e is None or admissible(e, spec):
+                return e
+        return None
+    g.__name__ = fn.__name__
+    return g
+
+
+def can_remove_up(spec, up, remaining):
+    """a pattern may leave the system only if it shares no job, step, journey, server, storage or network with the remaining ones"""
+    s2 = {"objects": dict(spec["objects"]), "system": spec["system"]}
+    s2["objects"][spec["system"]] = {"cls": "System", "params": {"usage_patterns": ["refs", list(remaining)]}}
+    return well_formed(s2)
+
+
+@keeps_well_formed
 def link_edit(rnd, spec):
     O = spec["objects"]
     kind = rnd.choice(["job.server", "up.uj", "up.network", "up.country", "server.storage"])
@@ -177,6 +222,7 @@ def link_edit(rnd, spec):
     return {"op": "set", "obj": up, "attr": attr, "value": ["ref", rnd.choice(names_of(spec, cls))]}
 
 
+@keeps_well_formed
 def list_assign_edit(rnd, spec):
     O = spec["objects"]
     cls = rnd.choice(["UsageJourney", "UsageJourneyStep", "UsagePattern", "System"])
@@ -214,6 +260,7 @@ MUTATORS = ["append", "insert", "extend", "iadd", "imul", "pop", "remove", "remo
             "noop_iadd", "noop_extend", "noop_imul", "noop_setitem"]
 
 
+@keeps_well_formed
 def list_mut_edit(rnd, spec, methods=None, classes=("UsageJourney", "UsageJourneyStep", "UsagePattern")):
     O = spec["objects"]
     cls = rnd.choice(classes)
@@ -280,6 +327,7 @@ def server_type_edit(rnd, spec):
     return {"op": "set", "obj": s, "attr": "server_type", "value": ["s", rnd.choice(["autoscaling", "on-premise", "serverless"])]}
 
 
+@keeps_well_formed
 def group_edit(rnd, spec):
     changes, seen = [], set()
     for _ in range(rnd.randint(2, 3)):
@@ -293,6 +341,7 @@ def group_edit(rnd, spec):
     return {"op": "group", "changes": changes}
 
 
+@keeps_well_formed
 def fill_empty_step_edit(rnd, spec):
     """give its first job(s) to a step whose job list is empty, preferably a job not yet used by the patterns of that step"""
     O = spec["objects"]
